@@ -82,6 +82,21 @@ def publish_rule(run, f, rid):
             run.ok(rid, fn, "miss -> entry(name).or_insert_with(alloc) -> published value returned")
 
 
+def _is_const_name(d):
+    """the bean name is a compile-time constant: a `const` item / string literal / static, reached only through
+    references, derefs and pointer casts (a name computed at run time differs between callers)"""
+    while isinstance(d, tuple) and d:
+        if d[0] == "ref" and len(d) == 2:
+            d = d[1]
+        elif d[0] == "proj" and len(d) == 3 and set(d[2]) <= {"*"}:
+            d = d[1]
+        elif d[0] == "cast" and len(d) == 3:
+            d = d[2]
+        else:
+            break
+    return isinstance(d, tuple) and len(d) == 2 and d[0] in ("const", "static") and d[1] is not None
+
+
 def names_rule(run, f, rid):
     run.rule(rid, "the process-wide beans are looked up under fixed constants", floor=2, template="T5")
     sites = {}
@@ -94,12 +109,12 @@ def names_rule(run, f, rid):
                 du = du or DefUse(b)
                 d = describe_val(b, du, t["args"][0])
                 ty = (t.get("substs") or ["?"])[-1]
-                sites.setdefault(ty, []).append((b.npath, repr(d)))
+                sites.setdefault(ty, []).append((b.npath, repr(d), d))
     for ty, ss in sorted(sites.items()):
-        names = {d for (_fn, d) in ss}
-        const = all("'const'" in d or "const" in d for d in names)
+        names = {d for (_fn, d, _dv) in ss}
+        const = all(_is_const_name(dv) for (_fn, _d, dv) in ss)
         if len(names) == 1 and const:
-            run.ok(rid, ty, {"sites": [fn for (fn, _d) in ss], "name": sorted(names)[0][:80]})
+            run.ok(rid, ty, {"sites": [fn for (fn, _d, _dv) in ss], "name": sorted(names)[0][:80]})
         else:
             run.fail(rid, ty, "core/src", "the shared %s is looked up under %d different / non-constant names: %s" % (ty, len(names), sorted(names)))
 
